@@ -10,7 +10,9 @@ EXPLANATION = ("(R20.3) the wake decision taken when a suspended send_with_async
                "bottom-up over the resolved call graph incl. closures and trait dispatch by CHA) over the built MIR of every coroutine "
                "body: a Yield terminator reached in a state that holds a spin-lock or a ring reservation is a violation. This is a "
                "sufficient condition for C20's 'other operations complete in bounded steps': the only unbounded waits in the channel "
-               "code are spins on these resources.")
+               "code are spins on these resources. (R20.3) the wake decision of a completed send_with_async does not rest on a length sampled before its suspension point; "
+               "(R20.4) the channel-level poll / query functions (consume, keep_stream_running, register_stream_waker, pending_items_count, running_streams_count, is_channel_open, "
+               "poll_next) contain no loop that retries the dequeue or spins / sleeps: none of them waits for a producer that may be suspended.")
 ASSUMPTIONS = ["spin-waits exist only on the role-table resources (ogre_sync locks, RawMutex, AtomicMove reservation counters, mmap log tail)",
                "dropping (cancelling) a suspended send_with_async future is outside C20's statement"]
 TRUSTED = ["typestate primitives in roles.py"]
@@ -106,7 +108,40 @@ def _call_blocks(e, out=None):
     return out
 
 
+# ---------------------------------------------------------------------------------------------- R20.4 (added after seed C20b-s2)
+WAITS = ("spin_loop", "yield_now", "sleep", "relaxed_wait", "park", "busy_wait")
+DEQUEUES = ("consume_movable", "consume_leaking", "consume", "try_recv", "recv", "dequeue", "consume_leaking_internal")
+
+def _r20_4(ctx):
+    """polls and queries never wait for a producer: the channel-level consumer / query functions and MutinyStream::poll_next contain no loop that retries the
+    dequeue or spins / sleeps (a loop that waits for an in-flight publication waits for a suspended send_with_async -- for as long as its setter stays parked)"""
+    import roles as R
+    from mir import Body
+    fx = ctx.fx
+    keys = []
+    for name, path in R.CHANNELS.items():
+        for tr, fns in ((R.T_CONS, ("consume", "keep_stream_running", "register_stream_waker")), (R.T_COMMON, ("pending_items_count", "running_streams_count", "is_channel_open", "buffer_size"))):
+            for fn in fns:
+                if fx.fn_opt(f"{path} as {tr}::{fn}"): keys.append(f"{path} as {tr}::{fn}")
+    keys += [f["key"] for f in fx.fns if f.get("impl_self") == R.STREAM and f["key"].endswith("::poll_next")]
+    for k in keys:
+        fam = [f for f in fx.fns if (f.get("owner_fn") or f["key"]) == k]
+        bad = None
+        for f in fam:
+            body = Body(f)
+            for h, blocks in body.loops.items():
+                names = {body.term(b)[1].get("fname") for b in blocks if body.term(b)[0] == "Call"}
+                if names & set(WAITS) or names & set(DEQUEUES):
+                    bad = (body.loc(h), sorted(n for n in names if n in WAITS or n in DEQUEUES)); break
+            if bad: break
+        ctx.ob("R20.4", f"{k}|no-waiting-loop", bad is None, bad[0] if bad else f"{fam[0]['file']}:{fam[0]['line']}" if fam else "",
+               "no loop that retries the dequeue or spins / sleeps" if bad is None else
+               f"a loop around {bad[1]}: this poll / query waits for somebody else's progress -- a send_with_async whose setter is suspended (slot reserved, not yet published) keeps it spinning")
+    ctx.floor("R20.4", 60)
+
+
 _check_r20_1 = check
 def check(ctx):
     _check_r20_1(ctx)
     _r20_3(ctx)
+    _r20_4(ctx)
